@@ -17,7 +17,7 @@ DECIDES = ("Decided: what the mutation can write into the program (effect summar
            "in the single selected function, that the written value is the result of find_irrelevant_type for the type read "
            "from the very node being overwritten (None -> no write), that the report flags are set on exactly the paths "
            "that wrote, what the message is built from, which nodes are candidates, and the oracle wiring "
-           "(reported as expected-to-fail iff is_transformed).")
+           "(reported as expected-to-fail iff is_transformed). Also: the mutation object is run exactly once per injection and its report flags are written by nobody but the mutation itself.")
 NOT_DECIDED = ("that the replacement makes every such program ill-typed for the target compiler (language-specific "
                "assignability such as numeric conversions is a matter of values, and the irrelevance of the new type is "
                "C09's value-level part).")
